@@ -3019,6 +3019,9 @@ class TLSConnection(TLSRecordLayer):
                 if ticket and ticket.creation_time + \
                         settings.ticketLifetime < time.time():
                     continue
+                # check if the ticket was issued under the same server name
+                if ticket and ticket.server_name != clientHello.server_name:
+                    continue
                 # check if PSK can be used with selected cipher suite
                 psk_hash = match[0][2] if len(match[0]) > 2 else 'sha256'
                 if psk_hash != prf_name:
